@@ -189,12 +189,12 @@ Proof. intros ((Ha & _) & (Hv & _) & _). destruct audio; assumption. Qed.
 
 Lemma track_times audio s evs e0 rest e :
   chained s evs -> track_evs audio evs = e0 :: rest -> te_dts0 e0 <> max_u64 -> In e (e0 :: rest) ->
-  f_dts (te_frame e) = (if te_dts0 e <? te_dts0 e0 then te_dts0 e else te_dts0 e - te_dts0 e0)
+  f_dts (te_frame e) = rebase_dts (te_dts0 e) (te_dts0 e0)
   /\ f_pts (te_frame e) = u64 (f_dts (te_frame e) + 90 * te_cts e).
 Proof.
   intros Hc Ht Hb Hin. pose proof (chained_track s evs audio Hc) as Hch. rewrite Ht in Hch.
   destruct Hin as [<-|Hin].
   - destruct (chain_first_base _ _ _ Hch) as (H0 & _). cbn [chain] in Hch. destruct Hch as (_ & _ & _ & Hp & _).
-    split; [|exact Hp]. rewrite H0, N.ltb_irrefl. lia.
+    split; [|exact Hp]. rewrite H0. unfold rebase_dts. rewrite N.ltb_irrefl. lia.
   - destruct (chain_first_base _ _ _ Hch) as (_ & Hr). exact (chain_times rest _ _ e Hr Hb Hin).
 Qed.
